@@ -13,7 +13,7 @@ Phase == {0, Fut, Past}
 ValA == UNION {{VStr(x, e), VStr(N(5), e), VList(<<x, y>>, e), VHash((f :> x), e), VSet({x, y}, e)} : e \in Phase}
 ValB == UNION {{VStr(y, e), VList(<<x>>, e), VSet({x}, e)} : e \in Phase}
 Dbs0 == UNION {{(ka :> va) @@ (kb :> vb) : va \in ValA, vb \in ValB}, {(ka :> va) : va \in ValA}, {(kb :> vb) : vb \in ValB}, {EmptyDb}}
-ExpStates == {[InitServer({1}) EXCEPT !.dbs[0] = d] : d \in Dbs0}
+ExpStates == {WithDb0(InitServer({1}), d) : d \in Dbs0}
 
 Opts == {<<>>, <<W("NX")>>, <<W("XX")>>, <<W("GT")>>, <<W("LT")>>, <<W("gt")>>, <<W("NX"), W("XX")>>, <<W("BOGUS")>>}
 ExpCmds ==
